@@ -4,9 +4,12 @@ def stages(tier):
     return [
         {"name": "certs", "cmd": "certs", "args": [], "check": "Check.Certs.check_certs",
          "timeout": 300, "timeout_thorough": 1800},
+        {"name": "tunnels", "cmd": "tunnelcert", "args": [], "check": "certificate actually presented inside CONNECT tunnels whose set-ups overlap, verified by crypto/tls for the tunnel's own host (direct)",
+         "timeout": 300, "timeout_thorough": 900},
     ]
 
 TRUSTED = [
+    "tunnels stage (harness/cmd/tunnelcert): the real proxy's CONNECT handling end to end; verdict = crypto/tls verification (chain to the configured CA, server name, validity now) of what the client is presented, under a forced overlap of two tunnel set-ups and under concurrent bursts",
     "model: Model/Certs.v mirrors proxy/certs/private_ca.go (GetCertForHost cache logic, SAN classification of createCert) over utils/syncmap (Get/Set/Delete atomic); compared on every run with the real PrivateCA.GetCertForHost (CA loaded by the real NewPrivateCA) on generated histories",
     "crypto oracle (not modelled, not proved): crypto/x509 Verify of the presented leaf against the CA pool for the target host, real validity period and server-auth usage; ECDSA public-key equality of leaf and private key",
     "library contracts as model inputs: net.SplitHostPort = split_host_port (compared on every generated target, including a malformed stream); netip.ParseAddr as the parse_ip oracle recorded per host",
